@@ -220,10 +220,10 @@ func ToMat64(t *Dense, opts ...FuncOpt) (retVal *mat.Dense, err error) {
 
 	var data []float64
 	switch {
-	case t.t == Float64 && toCopy  && !t.IsMaterializable():
+	case t.t == Float64 && toCopy && !t.IsMaterializable() && !t.o.IsColMajor():
 		data = make([]float64, t.len())
 		copy(data, t.Float64s())
-	case !t.IsMaterializable():	
+	case !t.IsMaterializable() && !t.o.IsColMajor(): // a column-major tensor is read through the iterator, in logical order
 		data = convToFloat64s(t)
 	default:
 		it := newFlatIterator(&t.AP)
